@@ -491,7 +491,7 @@ impl Prop for C12 {
                 "the export plugin is driven for filter sets of up to 2 (thorough 3) filters: the file it writes (without its info messages) must hold exactly the messages the statement keeps".into(),
                 "the error path of filter_as_streams (downstream send fails) is outside the statement".into(),
             ],
-            budget_s: (35, 1200),
+            budget_s: (90, 1200),
             workers: 0,
             required_landmarks: vec![
                 "positive_or_decides",
